@@ -44,6 +44,7 @@ namespace Avoid {
 
 class JunctionRef;
 class ConnRef;
+class ConnEnd;
 class HyperedgeShiftSegment;
 class VertInf;
 class Router;
@@ -56,6 +57,7 @@ typedef std::map<JunctionRef *, HyperedgeTreeNode *>
 typedef std::set<JunctionRef *> JunctionSet;
 typedef std::list<JunctionRef *> JunctionRefList;
 typedef std::list<ConnRef *> ConnRefList;
+typedef std::map<VertInf *, const ConnEnd *> VertexConnEndMap;
 
 class CmpNodesInDim;
 
@@ -74,7 +76,8 @@ struct HyperedgeTreeNode
     void spliceEdgesFrom(HyperedgeTreeNode *oldNode);
     void writeEdgesToConns(HyperedgeTreeEdge *ignored, size_t pass);
     void addConns(HyperedgeTreeEdge *ignored, Router *router, 
-            ConnRefList& oldConns, ConnRef *conn);
+            ConnRefList& oldConns, ConnRef *conn,
+            const VertexConnEndMap *terminalConnEnds = nullptr);
     void updateConnEnds(HyperedgeTreeEdge *ignored, bool forward,
             ConnRefList& changedConns);
     void listJunctionsAndConnectors(HyperedgeTreeEdge *ignored,
@@ -108,7 +111,8 @@ struct HyperedgeTreeEdge
             JunctionSet &treeRoots);
     void writeEdgesToConns(HyperedgeTreeNode *ignored, size_t pass);
     void addConns(HyperedgeTreeNode *ignored, Router *router,
-            ConnRefList& oldConns);
+            ConnRefList& oldConns,
+            const VertexConnEndMap *terminalConnEnds = nullptr);
     void updateConnEnds(HyperedgeTreeNode *ignored, bool forward,
             ConnRefList& changedConns);
     void disconnectEdge(void);
